@@ -155,6 +155,17 @@ def zm_zoomify(case, ctx):
             pth = os.path.join(d, f"base{r}.cool")
             cooler.coarsen_cooler(base, pth, r // b0, chunksize=10 ** 6)
             bases.append(pth)
+    if case.get("tagged"):
+        # every base cooler carries something of its own that only a COPY preserves: a constant extra bin column and a metadata
+        # entry naming its resolution
+        import h5py
+        from cooler.util import parse_cooler_uri
+        for r, bu in zip(case["base_res"], bases):
+            fp_, grp_ = parse_cooler_uri(bu)
+            with h5py.File(fp_, "r+") as f:
+                g = f[grp_]
+                g["bins"].create_dataset("tag", data=np.full(len(g["bins/start"]), r, dtype=np.int64))
+                g.attrs["metadata"] = '{"base": %d}' % r
     out = os.path.join(d, "out.mcool")
     if case.get("prior"):
         # the output path already holds a multires file written by an EARLIER run (other data, other ladder)
@@ -185,7 +196,11 @@ def zm_zoomify(case, ctx):
             r = int(pth.rsplit("/", 1)[-1])
         except ValueError:
             r = -1
-        levels.append({"res": r, "table": _table_of(c), "px": _px_of(c), "raw": project.raw_uri(out + "::" + pth)})
+        b = c.bins()[:]
+        md = c.info.get("metadata", {})
+        levels.append({"res": r, "table": _table_of(c), "px": _px_of(c), "raw": project.raw_uri(out + "::" + pth),
+                       "tag": sorted({project.to_int(v) for v in b["tag"]}) if "tag" in b.columns else [],
+                       "meta_base": project.to_int(md.get("base", -1)) if isinstance(md, dict) else -1})
     return {"err": "", "listing": [[x for x in s.split("/") if x] for s in listing], "levels": levels,
             "multires": bool(cooler.fileops.is_multires_file(out))}
 
